@@ -99,3 +99,10 @@ Definition spec_update_ok (b : bstr) (r : val) : bool :=
   | VErr _ => true
   | _ => false
   end.
+
+Definition spec_any_ok (p : nat * bstr) (r : val) : bool :=
+  match fst p with
+  | 1%nat => spec_text_ok (snd p) r
+  | 2%nat => spec_update_ok (snd p) r
+  | _ => true
+  end.
